@@ -42,6 +42,10 @@ def star_polygon(rng, cx, cy, rmin, rmax, m):
 def make_polygon_case(rng, idx):
     cx, cy = Fr(rng.randint(-16, 16), 8), Fr(rng.randint(-16, 16), 8)
     outer = star_polygon(rng, cx, cy, 2, 4, rng.randint(3, 9))
+    # every edge of the outer ring keeps a distance > 7/8 from the centre, so a hole of radius <= 3/4 lies strictly inside
+    while any(((x0 - cx) * (y1 - cy) - (x1 - cx) * (y0 - cy)) ** 2 <= Fr(49, 64) * ((x1 - x0) ** 2 + (y1 - y0) ** 2)
+              for (x0, y0), (x1, y1) in zip(outer, outer[1:] + outer[:1])):
+        outer = star_polygon(rng, cx, cy, 2, 4, rng.randint(3, 9))
     hole = star_polygon(rng, cx, cy, Fr(1, 4), Fr(3, 4), rng.randint(3, 6)) if rng.random() < 0.4 else None
     if rng.random() < 0.5:
         outer = outer[::-1]
